@@ -16,6 +16,8 @@
 //   cw clear <reply> | cw stats <reply>
 //        a real tcp_cache object talks to a scripted peer inside the harness: answer = the request
 //        frame it put on the socket, then what it made of <reply>
+//   rawseg <srv> <now> <n> <frame> | cws <n> <cw arguments>   the same, the request / the scripted reply sent in
+//        pieces of n bytes with pauses, so that the receiver's read loop really sees partial data
 //   layout                         offsetof/sizeof of the compiled tcp_operation_header
 //   hash <n> <key>                 tcp_connector::hash with n connections
 #include "common.h"
@@ -70,6 +72,18 @@ static int listen_any(int &port)
 static int free_port() { int p; int s=listen_any(p); close(s); return p; }
 static bool write_all(int fd,char const *p,size_t n) { while(n) { ssize_t r=::send(fd,p,n,MSG_NOSIGNAL); if(r<=0) { if(r<0&&errno==EINTR) continue; return false; } p+=r; n-=r; } return true; }
 static bool read_all(int fd,char *p,size_t n) { while(n) { ssize_t r=::recv(fd,p,n,0); if(r<=0) { if(r<0&&errno==EINTR) continue; return false; } p+=r; n-=r; } return true; }
+// send in pieces of `chunk` bytes with a pause in between (TCP_NODELAY is set): the receiver's read_some sees partial data
+static bool write_chunked(int fd,char const *p,size_t n,size_t chunk)
+{
+	if(chunk==0) return write_all(fd,p,n);
+	while(n) {
+		size_t k=n<chunk?n:chunk;
+		if(!write_all(fd,p,k)) return false;
+		p+=k; n-=k;
+		if(n) usleep(n>(1u<<20)?20:300);
+	}
+	return true;
+}
 static int connect_to(int port)
 {
 	int s=socket(AF_INET,SOCK_STREAM,0);
@@ -197,6 +211,7 @@ static std::string do_cfg(std::string const &sl,std::string const &ll)
 }
 
 // ------------------------------------------------------------------ raw frames to a real server
+static size_t raw_chunk=0;
 static std::string do_raw(size_t i,std::string const &frame)
 {
 	if(i>=servers.size() || frame.size()<sizeof(tcp_operation_header)) return "bad-op";
@@ -204,7 +219,7 @@ static std::string do_raw(size_t i,std::string const &frame)
 	server_node &n=*servers[i];
 	if(n.rawfd<0) n.rawfd=connect_to(n.port);
 	if(n.rawfd<0) return "connect-failed";
-	if(!write_all(n.rawfd,frame.data(),frame.size())) return "write-failed";
+	if(!write_chunked(n.rawfd,frame.data(),frame.size(),raw_chunk)) return "write-failed";
 	std::string reply(sizeof(tcp_operation_header),'\0');
 	if(!read_all(n.rawfd,&reply[0],reply.size())) return "no-reply";
 	uint32_t sz=rd32(reply.data()+offsetof(tcp_operation_header,size));
@@ -215,6 +230,7 @@ static std::string do_raw(size_t i,std::string const &frame)
 // ------------------------------------------------------------------ a real tcp_cache against a scripted peer
 static pthread_mutex_t peer_mu=PTHREAD_MUTEX_INITIALIZER;
 static std::string peer_reply, peer_request;
+static size_t peer_chunk=0;
 static int peer_port=0;
 static void *peer_conn(void *arg)
 {
@@ -224,9 +240,9 @@ static void *peer_conn(void *arg)
 		if(!read_all(fd,&req[0],req.size())) break;
 		uint32_t sz=rd32(req.data()+offsetof(tcp_operation_header,size));
 		if(sz) { std::string p(sz,'\0'); if(!read_all(fd,&p[0],sz)) break; req+=p; }
-		std::string rep;
-		pthread_mutex_lock(&peer_mu); peer_request=req; rep=peer_reply; pthread_mutex_unlock(&peer_mu);
-		if(!write_all(fd,rep.data(),rep.size())) break;
+		std::string rep; size_t chunk;
+		pthread_mutex_lock(&peer_mu); peer_request=req; rep=peer_reply; chunk=peer_chunk; pthread_mutex_unlock(&peer_mu);
+		if(!write_chunked(fd,rep.data(),rep.size(),chunk)) break;
 	}
 	close(fd);
 	return 0;
@@ -355,7 +371,20 @@ static std::string run(std::vector<std::string> const &w)
 	}
 	if(w[0]=="layout" && w.size()==1) return do_layout();
 	if(w[0]=="hash" && w.size()==3) { std::string k; if(!vh::unhex(w[2],k)) return "bad-op"; return do_hash(atoi(w[1].c_str()),k); }
-	if(w[0]=="cw") return do_cw(w);
+	if(w[0]=="cw") { pthread_mutex_lock(&peer_mu); peer_chunk=0; pthread_mutex_unlock(&peer_mu); return do_cw(w); }
+	if(w[0]=="cws" && w.size()>2) {
+		pthread_mutex_lock(&peer_mu); peer_chunk=strtoul(w[1].c_str(),0,10); pthread_mutex_unlock(&peer_mu);
+		std::vector<std::string> v(w.begin()+1,w.end()); v[0]="cw";
+		return do_cw(v);
+	}
+	if(w[0]=="rawseg" && w.size()==5) {
+		std::string fr; if(!vh::unhex(w[4],fr)) return "bad-op";
+		virtual_now=strtoll(w[2].c_str(),0,10);
+		raw_chunk=strtoul(w[3].c_str(),0,10);
+		std::string r=do_raw(strtoul(w[1].c_str(),0,10),fr);
+		raw_chunk=0;
+		return r;
+	}
 	if(w[0]=="raw" && w.size()==4) {
 		std::string fr; if(!vh::unhex(w[3],fr)) return "bad-op";
 		virtual_now=strtoll(w[2].c_str(),0,10);
